@@ -142,17 +142,20 @@ CLAIMED["C12"] = dict(cat="proof", ref="DESIGN.md §5 C12, §12",
    note="dictionary-equality clause observed, not proved; known finding F4 (canonical form and container header of a piecewise-parsed schema keep bare names); "
         "piecewise forms exist only for top-level records (only they carry __named_schemas); F26 fixed",
    tech="Lean 4 theorems on the (schema, dictionary) interface + differential run over schema forms and operations")
-CLAIMED["C15"] = dict(cat="proof", ref="DESIGN.md §5 C15, §12",
+CLAIMED["C15"] = dict(cat="proof", ref="DESIGN.md §5 C15, §11, §12",
    text="PARTIAL proof. Lean theorems: c15_encode_eq_spec (the value json_writer emits = the specification's JSON encoding Spec.jsonEncode — null as null, union "
         "values wrapped under the branch name with full names for named types, bytes/fixed as strings of code points, enums as symbols, objects and arrays — for the "
         "branches write_union selects, at any depth, on the core fragment: floating fields hold floats, no empty map key, no logical types), c15_core_is_spec, "
-        "c15_bytes_strings (code-point strings decode back to the bytes). The read-back, agreement-with-binary and absent-field-default clauses are checked on the "
-        "implementation: JSON text parsed and compared by value with Spec.jsonEncode under the documented branch rule, read back, compared with the binary round "
-        "trip, fields deleted from the text, write_union_type on/off.",
-   note="the model describes the net effect of the writer's traversal on AvroJSONEncoder; the grammar machine that sequences the calls (fastavro/io/parser.py: symbol "
-        "stack, forced-null production for repeated record names, lazily executed actions) is NOT modelled and is where the open findings F5a-d, F27, F28 live; "
-        "F14 (numbers not rounded to the type's precision) open; model==implementation observed by correspondence on schemas outside those findings",
-   tech="Lean 4 proof (writer traversal = specification JSON encoder) + specification encoder run against the implementation's text + differential read-back")
+        "c15_bytes_strings (code-point strings decode back to the bytes), and c15_read_back (the read-back clause at any depth: json_reader — model Json.decode — applied "
+        "to that encoding with the same schema returns the record as written, Spec.written: defaults filled in, union value of the written branch, sequences as lists, "
+        "bytearray as bytes; side conditions = definedness of that form: distinct dict keys / field names / union branch names, named-schema table holding named types). "
+        "The driver evaluates Spec.written on every harness case and the implementation's read-back is compared with it (tag read-back:theorem-domain). The "
+        "agreement-with-binary and absent-field-default clauses are checked on the implementation: JSON text parsed and compared by value with Spec.jsonEncode under "
+        "the documented branch rule, read back, compared with the binary round trip, fields deleted from the text, write_union_type on/off.",
+   note="the model describes the net effect of the writer's / reader's traversal on AvroJSONEncoder / AvroJSONDecoder; the grammar machine that sequences the calls "
+        "(fastavro/io/parser.py: symbol stack, forced-null production for repeated record names, lazily executed actions) is NOT modelled and is where the open findings "
+        "F5a-d, F27, F28 live; F14 (numbers not rounded to the type's precision) open; model==implementation observed by correspondence on schemas outside those findings",
+   tech="Lean 4 proof (writer traversal = specification JSON encoder; reader traversal inverts it) + specification encoder run against the implementation's text + differential read-back")
 CLAIMED["C17"] = dict(cat="proof", ref="DESIGN.md §5 C17, §12",
    text="Lean: c17_history_independent (generic theorem: for every semantics of the calls that respects the footprints of the effect table, the result of any call after "
         "any history equals its result in the initial store), with the table obligations c17_table_safe (whatever an entry point may read before writing it is written "
